@@ -274,7 +274,8 @@ def st_user(draw):
         draw(st.sampled_from(['.txt', '.json', '', '.dat', '']))
     fam = draw(st.sampled_from(['json', 'txt']))
     spec = {'f': 'user', 'kind': draw(st.sampled_from(['Array', 'Ragged'])), 'name': name, 'fam': fam, 'asPath': draw(st.booleans()),
-            'others': draw(st.lists(st.text(alphabet=SAFE, min_size=1, max_size=5).map(lambda s: s + '.u'), max_size=3, unique=True))}
+            'others': draw(st.lists(st.text(alphabet=SAFE, min_size=1, max_size=5).map(lambda s: s + '.u'), max_size=3, unique=True)),
+            'alt': draw(st.sampled_from([0, 0, 1, 2, 3]))}
     if fam == 'json':
         spec['d'] = [[k, draw(c13.st_value())] for k in draw(st.lists(st.sampled_from(['a', 'b', 'ö', 'k 4']), max_size=3, unique=True))]
         spec['d2'] = [[k, draw(c13.st_value())] for k in draw(st.lists(st.sampled_from(['a', 'z']), max_size=2, unique=True))]
@@ -295,6 +296,12 @@ def _exec_user(ctx, spec, out):
         a, p = make(kind, d)
         dd = a.datadir
         nm = pathlib.Path(name) if spec['asPath'] else name
+        # the same user file written under one spelling of its name and read under another ('n', './n', './/n', Path): every
+        # call sees the one file
+        alt = spec.get('alt', 0)
+        nmw = {0: nm, 1: './' + name, 2: './/' + name, 3: pathlib.Path('./' + name) if not spec['asPath'] else name}[alt % 4]
+        if alt % 4:
+            out.cls('user:written-and-read-under-different-spellings')
         protected_before = {k: v for k, v in snapshot(p).items()}
         try:
             for o in others:
@@ -303,7 +310,7 @@ def _exec_user(ctx, spec, out):
                 out.cls('user:json')
                 dobj = {k: c13.build_value(v) for k, v in spec['d']}
                 want = {k: c13.model_value(v) for k, v in spec['d']}
-                dd.write_jsondict(nm, dobj)
+                dd.write_jsondict(nmw, dobj)
                 got = dd.read_jsondict(nm)
                 if not c13.deep_eq(got, want):
                     out.viol('json-roundtrip', 'write_jsondict/read_jsondict', f'{got!r:.200} vs {want!r:.200}')
@@ -320,7 +327,7 @@ def _exec_user(ctx, spec, out):
                     return out
                 d2 = {k: c13.build_value(v) for k, v in spec['d2']}
                 try:
-                    dd.write_jsondict(nm, d2)
+                    dd.write_jsondict(nmw, d2)
                     out.viol('overwrite-not-refused', 'write_jsondict', 'second write with overwrite=False did not raise')
                     return out
                 except OSError:
@@ -328,11 +335,11 @@ def _exec_user(ctx, spec, out):
                 if not c13.deep_eq(dd.read_jsondict(nm), want):
                     out.viol('refused-overwrite-changed-content', 'write_jsondict', '')
                     return out
-                dd.write_jsondict(nm, d2, overwrite=True)
+                dd.write_jsondict(nmw, d2, overwrite=True)
                 if not c13.deep_eq(dd.read_jsondict(nm), {k: c13.model_value(v) for k, v in spec['d2']}):
                     out.viol('json-roundtrip', 'write_jsondict:overwrite=True', '')
                     return out
-                upd = dd.update_jsondict(nm, {'u': 1})
+                upd = dd.update_jsondict(nmw, {'u': 1})
                 w3 = dict({k: c13.model_value(v) for k, v in spec['d2']}, u=1)
                 if not c13.deep_eq(dd.read_jsondict(nm), w3):
                     out.viol('json-roundtrip', 'update_jsondict', '')
@@ -341,13 +348,13 @@ def _exec_user(ctx, spec, out):
                 out.cls('user:txt')
                 s = spec['txt']
                 want = s.replace('\r\n', '\n').replace('\r', '\n')
-                dd.write_txt(nm, s)
+                dd.write_txt(nmw, s)
                 got = dd.read_txt(nm)
                 if got != want:
                     out.viol('txt-roundtrip', 'write_txt/read_txt', f'{got!r:.100} vs {want!r:.100}')
                     return out
                 try:
-                    dd.write_txt(nm, spec['txt2'])
+                    dd.write_txt(nmw, spec['txt2'])
                     out.viol('overwrite-not-refused', 'write_txt', 'second write with overwrite=False did not raise')
                     return out
                 except OSError:
@@ -355,17 +362,24 @@ def _exec_user(ctx, spec, out):
                 if dd.read_txt(nm) != want:
                     out.viol('refused-overwrite-changed-content', 'write_txt', '')
                     return out
-                dd.write_txt(nm, spec['txt2'], overwrite=True)
+                dd.write_txt(nmw, spec['txt2'], overwrite=True)
                 if dd.read_txt(nm) != spec['txt2']:
                     out.viol('txt-roundtrip', 'write_txt:overwrite=True', '')
                     return out
             # delete exactly the named files
             out.cls('user:delete')
-            victims = [nm] + others[:1] + ['does-not-exist.txt']
+            victims = [nmw] + others[:1] + ['does-not-exist.txt']
             before = snapshot(p)
             dd.delete_files(victims)
             after = snapshot(p)
-            gone = {str(v) for v in victims}
+            gone = {name} | {str(v) for v in victims[1:]}
+            try:
+                (dd.read_jsondict if spec['fam'] == 'json' else dd.read_txt)(nm)
+            except Exception:
+                pass
+            else:
+                out.viol('deleted-file-still-readable', 'delete_files', f'{name!r} was deleted, yet it can still be read through the same DataDir')
+                return out
             expect = {k: v for k, v in before.items() if k not in gone}
             if after != expect:
                 out.viol('delete-files-inexact', 'delete_files', '; '.join(diff(expect, after)))
